@@ -271,10 +271,11 @@ pub fn check_case(case: &FunCase, prop: Prop, rep: &mut Report) {
                     }
                 }
             }
+            let main_params = linear.as_ref().and_then(|l| l.defs.first().map(|d| d.context.bindings.len())).unwrap_or(0);
             for arch in Arch::all() {
                 match pipeline::codegen(linear.clone().unwrap(), arch) {
                     Ok(_) => rep.count("codegen_runs", 1),
-                    Err(StageError::Panic { msg, .. }) if super::codegen::is_capacity_panic(&msg) => rep.count("skipped_capacity", 1),
+                    Err(StageError::Panic { msg, .. }) if super::codegen::is_capacity_panic_for(&msg, main_params, arch) => rep.count("skipped_capacity", 1),
                     Err(StageError::Panic { stage, msg }) => {
                         rep.violation(format!("panic/{stage}"), format!("{}: {stage} panicked: {msg}", case.name), cj(&[]));
                     }
